@@ -1,22 +1,94 @@
-(* C04 -- Truncations are atomic and durable across crashes.
-   INTERIM file: the full statement is `crash_refinement_stmt` of Wal/Hist.v
-   (all histories of calls, power losses at any I/O boundary with any adversary
-   choice, nested crashes inside recovery, reopen cycles; see its comment for how
-   it covers C04).  Its proof is in progress; until it lands only the fragments
-   below are proved and the property is otherwise carried by the executable
-   acceptance predicate `hist_run`/`hs_ok` (evaluated on random histories of
-   the model on every run) and by the crash-image enumeration on the
-   implementation (stream `crash`). *)
-From RW Require Import Base.Bytes Fmt.Codec Fmt.Frame Wal.Model Wal.Spec Wal.Hist Wal.BasicFacts.
+(* C04 -- Truncations are atomic and durable.
+   Only statements here; proofs in Wal/Crash*.v.  Histories, guards and the crash
+   adversary are described in Props/C01.v.  Every crash point is covered BY PROOF. *)
+From RW Require Import Base.Bytes Fmt.Codec Fmt.Frame Wal.Model Wal.Spec Wal.Hist
+  Wal.CrashInv Wal.CrashCalls10 Wal.CrashThm Wal.CrashExamples Wal.CrashExamplesFacts.
 Open Scope N_scope.
 
-(* the full statement (not yet a theorem) *)
-Definition C04_full_statement : Prop := crash_refinement_stmt.
+Theorem C04_crash_refinement : crash_refinement_stmt.
+Proof. exact crash_refinement. Qed.
+Print Assumptions C04_crash_refinement.
 
-(* proved fragment: the metadata record (which alone decides which segments and which
-   index ranges are part of the log) is never changed by a power loss: a truncation is
-   committed by exactly one atomic metadata action and a crash falls before or after it *)
-Theorem C04_metadata_atomic_partial :
-  forall c d, dk_meta (crash_disk c d) = dk_meta d /\ dk_stable (crash_disk c d) = dk_stable d.
-Proof. exact crash_disk_meta. Qed.
-Print Assumptions C04_metadata_atomic_partial.
+(* An interrupted DeleteRange (crash after ANY number j of its I/O actions: the rotation
+   it waits for, the force-seal write and fsync, the metadata commit, the creation of
+   the new tail, each file deletion; any adversary choice) is, after recovery, applied
+   in full or not at all -- stated for every call o, in particular o = ODelete mn mx. *)
+Theorem C04_interrupted_delete_atomic :
+  forall c steps s o j cc d,
+    (cfg_ok c /\ Forall hstep_wf (steps ++ [HCrashIn o j cc]) /\ short_enough (steps ++ [HCrashIn o j cc])) ->
+    hs_mode (hist_run c hist_init steps) = Up s ->
+    hs_mode (hist_run c hist_init (steps ++ [HCrashIn o j cc])) = Down d ->
+    exists w e, open_wal c (env_of d) = (OOk w, e) /\
+      ({| sp_log := abs w (e_disk e); sp_kv := dk_stable (e_disk e) |} = hs_acked (hist_run c hist_init steps) \/
+       {| sp_log := abs w (e_disk e); sp_kv := dk_stable (e_disk e) |}
+         = snd (step_spec (hs_acked (hist_run c hist_init steps)) o)) /\
+      dir_exact (e_disk e) = true.
+Proof. exact interrupted_call_atomic. Qed.
+Print Assumptions C04_interrupted_delete_atomic.
+
+(* A DeleteRange(mn,mx) that returned nil stays applied: after ANY continuation of calls,
+   crashes and reopens in which index i (mn <= i <= mx) is not stored again, GetLog(i)
+   returns ErrNotFound (and every Open on the way succeeds). *)
+Theorem C04_acked_delete_stays :
+  forall c pre mn mx post s i,
+    (cfg_ok c /\ Forall hstep_wf (pre ++ HOp (ODelete mn mx) :: post) /\
+     short_enough (pre ++ HOp (ODelete mn mx) :: post)) ->
+    hs_mode (hist_run c hist_init pre) = Up s ->
+    fst (step_model c s (ODelete mn mx)) = ROk -> mn <= i -> i <= mx ->
+    Forall (fun st => ~ restores i st) post ->
+    match hs_mode (hist_run c hist_init (pre ++ HOp (ODelete mn mx) :: post)) with
+    | Up s' => fst (get_log (ss_wal s') i (ss_env s')) = RErrNotFound
+    | Down d => exists w e, open_wal c (env_of d) = (OOk w, e)
+    end.
+Proof. exact acked_delete_stays. Qed.
+Print Assumptions C04_acked_delete_stays.
+
+(* Entries appended after a tail truncation are never displaced on recovery by older
+   entries at the same indexes: this is C01's theorem with `pre` containing the
+   truncation -- whatever is recovered at the re-used index is the entry whose StoreLogs
+   returned nil last, identical in every field (the old entry is still in the sealed
+   file of the truncated segment, beyond its recorded MaxIndex, and in files that are
+   unlisted garbage; neither is ever read). *)
+Theorem C04_no_displacement :
+  forall c pre ls post s k l,
+    (cfg_ok c /\ Forall hstep_wf (pre ++ HOp (OStore ls) :: post) /\ short_enough (pre ++ HOp (OStore ls) :: post)) ->
+    hs_mode (hist_run c hist_init pre) = Up s ->
+    fst (step_model c s (OStore ls)) = ROk ->
+    nth_error ls k = Some l ->
+    Forall (fun st => ~ touches (l_index l) st) post ->
+    match hs_mode (hist_run c hist_init (pre ++ HOp (OStore ls) :: post)) with
+    | Up s' => fst (get_log (ss_wal s') (l_index l) (ss_env s')) = RLog l /\
+               exists fi la, first_index_op (ss_wal s') = RVal fi /\ last_index_op (ss_wal s') = RVal la /\
+                             fi <= l_index l /\ l_index l <= la
+    | Down d => exists w e, open_wal c (env_of d) = (OOk w, e)
+    end.
+Proof. exact acked_entry_survives. Qed.
+Print Assumptions C04_no_displacement.
+
+(* ---- non-vacuity (segment size 256: entries 1..3 in the unsealed tail) --------------
+   D: DeleteRange(3,3) interrupted after the force-seal write+fsync, before the metadata
+      commit: the crash image lists the segment as unsealed while its file is sealed;
+      nothing is truncated (LastIndex 3 after Open), the WAL stays writable (index 4).
+   E: interrupted after the commit (new tail file not yet created): the truncation is
+      applied (LastIndex 2); index 3 is re-appended with term 7; after another crash
+      GetLog(3) has term 7, not the old term 1.
+   G: head truncation interrupted after its commit, before the file deletion. *)
+Example C04_ex_guards :
+  hist_ok cfg256 hist_trunc_after_forceseal /\ hist_ok cfg256 hist_trunc_after_commit /\ hist_ok cfg128 hist_head_trunc.
+Proof. exact (conj hist_trunc_after_forceseal_ok (conj hist_trunc_after_commit_ok hist_head_trunc_ok)). Qed.
+Example C04_ex_after_forceseal :
+  final_ok cfg256 hist_trunc_after_forceseal = true /\
+  crash_shape cfg256 (firstn 3 hist_trunc_after_forceseal) = ([(1, false)], [((1, 0), true)]) /\
+  final_last cfg256 (firstn 5 hist_trunc_after_forceseal) = 3 /\
+  final_last cfg256 hist_trunc_after_forceseal = 4.
+Proof. vm_compute. repeat split; reflexivity. Qed.
+Example C04_ex_after_commit :
+  final_ok cfg256 hist_trunc_after_commit = true /\
+  crash_shape cfg256 (firstn 3 hist_trunc_after_commit) = ([(1, true); (3, false)], [((1, 0), true)]) /\
+  final_last cfg256 (firstn 5 hist_trunc_after_commit) = 2 /\
+  final_term cfg256 hist_trunc_after_commit 3 = Some 7 /\ final_last cfg256 hist_trunc_after_commit = 3.
+Proof. vm_compute. repeat split; reflexivity. Qed.
+Example C04_ex_head_truncation :
+  final_ok cfg128 hist_head_trunc = true /\ final_first cfg128 hist_head_trunc = 3 /\
+  crash_shape cfg128 (firstn 5 hist_head_trunc) = ([(3, false)], [((1, 0), true); ((3, 1), false)]).
+Proof. vm_compute. repeat split; reflexivity. Qed.
